@@ -308,7 +308,8 @@ func (g *G) heredoc() string {
 	stop := strings.NewReplacer("'", "", "\"", "", "\\", "").Replace(tag)
 	body := ""
 	for i := g.R.IntN(3); i > 0; i-- {
-		body += g.pick("line\n", "\t$a ${b:-c}\n", "$(echo x)\n", "`y`\n", "a \\\nb\n", "'\"\n", "\tEOFx\n", "$((1+2))\n", "\\$x\n", "\n")
+		body += g.pick("line\n", "\t$a ${b:-c}\n", "$(echo x)\n", "`y`\n", "a \\\nb\n", "'\"\n", "\tEOFx\n", "$((1+2))\n", "\\$x\n", "\n",
+			"$(a &&\n\tb)\n", "\t$(a |\n\t\tb)\n", "$(foo \\\n\tbar)\n", "\t$(if a; then\n\tb\nfi)\n", "`a &&\nb`\n")
 	}
 	term := stop + "\n"
 	if op == "<<-" && g.p(2) {
